@@ -85,6 +85,9 @@ var c16Contexts = []ctxTemplate{
 	{"group-by", "SELECT a FROM t GROUP BY ({C})"},
 	{"cast-operand", "SELECT CAST(({C}) AS INT) FROM t"},
 	{"extract-like", "SELECT a FROM t WHERE b LIKE COALESCE(NULL, ({C}))"},
+	{"and-chain-head-150", "SELECT a FROM t WHERE ({C})" + strings.Repeat(" AND b = 2", 150)},
+	{"or-chain-head-150", "SELECT a FROM t WHERE ({C})" + strings.Repeat(" OR b = 2", 150)},
+	{"and-chain-middle-300", "SELECT a FROM t WHERE c = 1" + strings.Repeat(" AND b = 2", 150) + " AND ({C})" + strings.Repeat(" AND b = 2", 150)},
 	{"deep-nesting", "SELECT a FROM t WHERE a IN (SELECT b FROM (SELECT b FROM u WHERE EXISTS (SELECT 1 FROM v WHERE {C})) z)"},
 }
 
@@ -236,6 +239,8 @@ func runC16(c *runCtx) {
 		{"SELECT a FROM t UNION SELECT name FROM sqlite_master", []string{"UNION_BASED:CRITICAL"}},
 		{"SELECT a FROM t WHERE a IN (SELECT b FROM u UNION SELECT usename FROM PG_CATALOG.pg_user)", []string{"UNION_BASED:CRITICAL"}},
 		{"SELECT a FROM t UNION SELECT b FROM systems", nil},
+		{"SELECT a, b FROM t UNION ALL SELECT NULL, NULL FROM pg_catalog.pg_tables", []string{"UNION_BASED:HIGH", "UNION_BASED:CRITICAL"}},
+		{"SELECT a FROM t WHERE a IN (SELECT x FROM v UNION SELECT NULL, NULL FROM information_schema.columns)", []string{"UNION_BASED:HIGH", "UNION_BASED:CRITICAL"}},
 	} {
 		check(u.sql, u.want, true, "union-null", false)
 	}
